@@ -553,7 +553,7 @@ release_stage_fds = Fn(C, 'release_stage_fds',
     pre_rewrites=[Rw('libs::close(', 'close(', rule='R0', required=False)],
     add_params='Tracked(k): Tracked<&mut Kernel>', ghost_args={'close': 'Tracked(k)'},
     requires=[('C05.pre.release.idx', 'idx_cmd <= pipes@.len()')],
-    ensures=[('C02+C08.release.exactly_the_descriptors_of_that_stage_are_closed',
+    ensures=[('C02+C08+C11.release.exactly_the_descriptors_of_that_stage_are_closed',
               '(forall|fd: int| #[trigger] final(k).fds.contains_key(fd) <==> (old(k).fds.contains_key(fd) && !stage_key(fd, idx_cmd as int, pipes@, fds_stdin, captured_last_stage, *fds_capture_stdout, *fds_capture_stderr))) '
               '&& (forall|fd: int| final(k).fds.contains_key(fd) ==> #[trigger] final(k).fds[fd] == old(k).fds[fd]) '
               '&& (forall|fd: int| #[trigger] final(k).cloexec.contains(fd) ==> old(k).cloexec.contains(fd)) '
